@@ -407,5 +407,7 @@ def world(n_peers: int = 2, cert_names=ALL_CERTS):
                 p.close()
             certs.close()
 
-        atexit.register(_cleanup)
+        from .. import core as _core
+
+        _core.at_exit(_cleanup)
     return w
